@@ -52,6 +52,8 @@ def main(argv):
                 return rc2
     except progmod.AnchorMissing as e:
         chk.anchor_missing("anchor", str(e))
+    except (SyntaxError, ImportError, NameError):
+        raise  # a defect of the checker itself: never "undecided"
     except Exception as e:
         # a rule that cannot digest the shape of the (changed) code fails closed, like a missing anchor: the
         # construct it was written for is no longer there in the form that was reviewed
